@@ -23,7 +23,7 @@ ASSUMPTIONS = [
     "independence_match is used only on DAGs in which every node occurs in some true independence statement "
     "(PC takes its variable set from the statements; a node adjacent to all others is invisible to it)",
     "node names are strings (IndependenceAssertion and DataFrame columns)",
-    "max_cond_vars = number of nodes; parallel variant runs with n_jobs=1 (a thorough-tier sample uses n_jobs=2)",
+    "max_cond_vars = number of nodes or, alternating, the largest degree of the true skeleton (tight but sufficient; two of the three variants, rotating with the case); parallel variant runs with n_jobs=1 (a thorough-tier sample uses n_jobs=2)",
     "PDAG extendability = existence of a DAG with the same skeleton, the same directed edges and exactly the "
     "PDAG's v-structures (Dor & Tarsi); non-extendable PDAGs are not checked",
 ]
@@ -147,7 +147,17 @@ def check_pc(case, out, variants=VARIANTS, infos=("callable", "independence_matc
             if r is RAISED:
                 continue
             est, ci = r
-            kw = dict(variant=variant, ci_test=ci, max_cond_vars=n, n_jobs=n_jobs, show_progress=False)
+            # max_cond_vars: generous (number of nodes) or tight (largest degree of the true skeleton, which bounds the
+            # size of every separating set PC needs: parents of one endpoint) - alternating with the case
+            deg = {v: 0 for v in nodes}
+            for a_, b_ in g.edges:
+                deg[a_] += 1
+                deg[b_] += 1
+            tight = (len(g.edges) + ["orig", "stable", "parallel"].index(variant)) % 3 != 0  # two variants of three, rotating
+            mcv = max(1, max(deg.values())) if tight else n
+            if tight:
+                out.cls("tight_max_cond_vars")
+            kw = dict(variant=variant, ci_test=ci, max_cond_vars=mcv, n_jobs=n_jobs, show_progress=False)
             # --- skeleton + separating sets
             res = out.call(f"{tag}:skeleton", est.estimate, return_type="skeleton", **kw)
             out.evals += 1
